@@ -83,6 +83,10 @@ def o_struct(case):
         t = F[it.key]
         if not (isinstance(t, tuple) and len(t) == 4 and isinstance(t[1], int) and isinstance(t[3], str)):
             raise Fail("data-field-entry-malformed", f"RTCM_DATA_FIELDS[{it.key!r}] = {t!r}")
+    # a repeat count is a count: the field it refers to is an unsigned integer of non-zero width with resolution 1
+    for k in sorted(w.counters):
+        if k in F and not (F[k][0] == "UINT" and F[k][1] > 0 and F[k][2] in (0, 1)):
+            raise Fail("repeat-count-field-not-an-unsigned-count", f"{ident}: groups repeat on {k}, declared as {F[k][:3]!r}")
     return Res(nontrivial=True, classes=["has-groups" if w.stats["groups"] else "flat"], evals=evals)
 
 
